@@ -192,8 +192,9 @@ class ExcelCompiler:
 
     @classmethod
     def _filename_has_extension(cls, filename):
+        # (model_json and mypkl are names without an extension)
         return next((extension for extension in cls.save_file_extensions
-                     if filename.endswith(extension)), None)
+                     if filename.endswith('.' + extension)), None)
 
     def _to_text(self, filename=None, is_json=False):
         """Serialize to a json/yaml file"""
@@ -358,7 +359,7 @@ class ExcelCompiler:
 
         # round trip through yaml/json to strip out junk
         text_name = filename
-        if not text_name.endswith(non_pickle_extension or '.yml'):
+        if not text_name.endswith('.' + (non_pickle_extension or 'yml')):
             text_name += '.' + (non_pickle_extension or 'yml')
         text_time = (os.path.getmtime(text_name)
                      if os.path.exists(text_name) else None)
@@ -366,7 +367,7 @@ class ExcelCompiler:
 
         # save pickle file if requested and has changed
         if pickle_extension:
-            if not filename.endswith(pickle_extension):
+            if not filename.endswith('.' + pickle_extension):
                 filename += '.' + pickle_extension
 
             # (a pickle older than the text file which was there is from
@@ -403,7 +404,7 @@ class ExcelCompiler:
         if not extension:
             raise ValueError(f"Unrecognized file type or compiled file not found: '{filename}'")
 
-        if not filename.endswith(extension):
+        if not filename.endswith('.' + extension):
             filename += '.' + extension
 
         if extension[0] == 'p':
